@@ -14,7 +14,13 @@ pub struct ExInstant(Instant);
 
 pub uninterp spec fn inst(i: Instant) -> int;      // nanoseconds on an abstract monotone clock
 pub uninterp spec fn nanos(d: Duration) -> int;    // length of a duration, >= 0
-pub uninterp spec fn f64_pos(x: f64) -> bool;      // x > 0.0
+pub open spec fn f64_pos(x: f64) -> bool {         // x > 0.0 as the exec comparison sees it
+    x.partial_cmp_spec(&0.0f64) == Some(std::cmp::Ordering::Greater)
+}
+pub broadcast axiom fn axiom_f64_cmp()              // exec `<`/`>` on f64 is the function partial_cmp_spec
+    ensures #[trigger] <f64 as vstd::std_specs::cmp::PartialOrdSpec<f64>>::obeys_partial_cmp_spec();
+pub uninterp spec fn inst_min() -> int;            // the earliest representable Instant
+pub broadcast axiom fn axiom_inst_min(i: Instant) ensures #[trigger] inst(i) >= inst_min();
 pub uninterp spec fn clock_now() -> int;           // ghost: the reading of the clock "at this pop"
 
 pub broadcast axiom fn axiom_nanos_nonneg(d: Duration) ensures #[trigger] nanos(d) >= 0;
@@ -22,7 +28,9 @@ pub broadcast axiom fn axiom_nanos_nonneg(d: Duration) ensures #[trigger] nanos(
 pub assume_specification [Instant::now] () -> (r: Instant)
     ensures inst(r) == clock_now();
 pub assume_specification [Instant::checked_sub] (i: &Instant, d: Duration) -> (r: Option<Instant>)
-    ensures r is Some ==> inst(r->0) == inst(*i) - nanos(d);
+    ensures
+        r is Some ==> inst(r->0) == inst(*i) - nanos(d),
+        r is None ==> inst(*i) - nanos(d) < inst_min();
 pub assume_specification [Duration::as_secs_f64] (d: &Duration) -> (r: f64)
     ensures f64_pos(r) <==> nanos(*d) > 0;
 pub assume_specification [<Instant as PartialEq>::eq] (a: &Instant, b: &Instant) -> (r: bool);
@@ -84,6 +92,11 @@ pub struct Sender<T> { inner: std::marker::PhantomData<T> }
 pub uninterp spec fn delivered<T>(id: int) -> Option<T>;
 /// prophecy: the receiving end of channel `id` is (or will be) gone without a value
 pub uninterp spec fn dead(id: int) -> bool;
+
+/// a channel whose receiver is gone never carries a value
+pub broadcast axiom fn axiom_dead_not_delivered<T>(id: int)
+    requires dead(id),
+    ensures #[trigger] delivered::<T>(id) is None;
 
 impl<T> Sender<T> {
     pub uninterp spec fn id(&self) -> int;
